@@ -1,10 +1,11 @@
 """C05 - The hashed subpacket area is verified verbatim, exactly as received.
 
-Decided by provenance (DESIGN 5/C05, form after the repair that keeps the received octets):
-  C05.1 SubPackets.parse captures packet[:2 + hl] (hl = the two-octet count at offset 0) before any consumption and stores it
+Decided by provenance (DESIGN 5/C05, form after the repair that keeps the received octets).  Every clause is decided on
+interpreter values (what a path returns / stores / calls, with locals resolved), never on the spelling of a statement:
+  C05.1 SubPackets.parse captures buffer[:2 + hl] (hl = the two-octet count at offset 0) before any consumption and stores it
         after the last hashed __setitem__ of the function
-  C05.2 __hashbytearray__ returns a copy of the captured octets whenever they are present - that test is the only condition -
-        and the re-serialising code is reachable only when they are absent
+  C05.2 __hashbytearray__ returns a copy of the captured octets on EVERY path when they are present, and never when absent
+        (scenario "present" / "absent": the condition may be spelled in any way, it only may not depend on anything else)
   C05.3 every other store to the capture is None (invalidation in __setitem__ on a hashed key, initial state) or a copy of the
         same attribute of another instance (__copy__); the copy chain SubPackets/SignatureV4/PGPSignature carries it
   C05.4 hashdata and canonical_bytes obtain the hashed area only through __hashbytearray__
@@ -14,27 +15,100 @@ Decided by provenance (DESIGN 5/C05, form after the repair that keeps the receiv
 import ast
 import re
 
-from sa.interp import Interp, Scenario, Sym, Const, Bytes, Enum, render, render_items, merge_consts
+from sa.interp import Interp, Scenario, Sym, Const, Bytes, Enum, render, render_items, merge_consts, sl, lin_norm
 from sa.loader import AnalysisError, dotted
 from sa import sigdata
+from sa.templates import b2i_forms, unmodelled
 
 noinline = lambda f: False  # noqa: E731
-RAW = '_hashed_raw'
 
 
-def find_raw_attr(prog):
-    """The attribute that holds the received hashed area: the one __hashbytearray__ returns on its first arm."""
+def at(fi, **by_index):
+    """Scenario arguments by parameter position (p1 = first parameter after self)."""
+    p = fi.params
+    out = {}
+    for k, v in by_index.items():
+        i = int(k[1:])
+        if i >= len(p):
+            raise AnalysisError('%s: parameter %d vanished' % (fi.qualname, i))
+        out[p[i]] = v
+    return out
+
+
+def _balanced(t):
+    d = 0
+    for ch in t:
+        d += ch in '([{'
+        d -= ch in ')]}'
+        if d < 0:
+            return False
+    return d == 0
+
+
+def uncopy(v):
+    """(text of the object, True) when the value is a fresh octet-exact copy of that object - bytearray(x), bytes(x), x[:],
+    copy.copy(x), copy.deepcopy(x) - and (text, False) when it is the object itself (an alias)."""
+    if v is None:
+        return None, False
+    if isinstance(v, Bytes):
+        its = merge_consts(v.items)
+        if len(its) == 1 and its[0][0] == 'SYM':
+            return uncopy(Sym(its[0][1]))[0], True
+        if len(its) == 1 and its[0][0] == 'SLICE' and its[0][2] == '' and its[0][3] == '' and isinstance(its[0][1], str):
+            return its[0][1], True
+        return render(v), True
+    t = render(v)
+    m = re.match(r'^(?:copy\.copy|copy\.deepcopy|bytes|bytearray)\((.*)\)$', t)
+    if m and _balanced(m.group(1)):
+        return uncopy(Sym(m.group(1)))[0], True
+    return t, False
+
+
+def raw_attribute(prog):
+    """Name of the attribute that holds the received hashed area: the instance attribute whose value (or a copy of it) some path
+    of SubPackets.__hashbytearray__ returns.  None when every path re-serialises parsed objects."""
     ci = prog.cls('pgpy.packet.fields', 'SubPackets')
     f = ci.methods.get('__hashbytearray__')
     if f is None:
         raise AnalysisError('SubPackets.__hashbytearray__ vanished')
     cands = set()
-    for n in ast.walk(f.node):
-        if isinstance(n, ast.Compare) and isinstance(n.left, ast.Attribute) and isinstance(n.left.value, ast.Name) and \
-                n.left.value.id == f.params[0] and len(n.ops) == 1 and isinstance(n.ops[0], (ast.Is, ast.IsNot)) and \
-                isinstance(n.comparators[0], ast.Constant) and n.comparators[0].value is None:
-            cands.add(n.left.attr)
-    return ci, f, cands
+    for s in Interp(prog, Scenario(inline=noinline)).run(f):
+        t, _ = uncopy(s.ret)
+        m = re.match(r'^%s\.(\w+)$' % re.escape(f.params[0]), t or '')
+        if m and ci.find_method(m.group(1)) is None and ci.find_prop(m.group(1)) is None and ci.find_plain_prop(m.group(1)) is None:
+            cands.add(m.group(1))
+    if len(cands) > 1:
+        raise AnalysisError('SubPackets.__hashbytearray__ returns several attributes verbatim: %s' % sorted(cands))
+    return next(iter(cands)) if cands else None
+
+
+def _attr_store_sites(prog, attr):
+    """Functions that write an attribute of this name on any object (assignment, augmented assignment, setattr with a literal)."""
+    out = []
+    for fn in prog.all_functions():
+        hit = False
+        for n in ast.walk(fn.node):
+            if isinstance(n, ast.Attribute) and n.attr == attr and isinstance(n.ctx, (ast.Store, ast.Del)):
+                hit = True
+            elif isinstance(n, ast.Call) and dotted(n.func) == 'setattr' and len(n.args) >= 2 and isinstance(n.args[1], ast.Constant) and \
+                    n.args[1].value == attr:
+                hit = True
+            elif isinstance(n, ast.Call) and dotted(n.func) == 'setattr' and len(n.args) >= 2 and not isinstance(n.args[1], ast.Constant) and \
+                    fn.cls is not None and fn.cls.name == 'SubPackets' and isinstance(n.args[0], ast.Name) and fn.params and \
+                    n.args[0].id == fn.params[0]:
+                raise AnalysisError('%s: setattr on self with a computed attribute name' % fn.qualname)
+        if hit:
+            out.append(fn)
+    return out
+
+
+def _stores_to(s, attr):
+    """(path, value text, line, Val) of the stores on this path whose target is `<object>.<attr>` (setattr with a literal name included)."""
+    out = [(p, v, l, val) for p, v, l, val in s.stores if p.endswith('.' + attr)]
+    for c in s.calls:
+        if c[0] == 'setattr' and len(c[1]) == 3 and c[1][1] == repr(attr):
+            out.append(('%s.%s' % (c[1][0], attr), c[1][2], c[3], None))
+    return out
 
 
 def run(rep, prog, tier):
@@ -46,25 +120,38 @@ def run(rep, prog, tier):
     rep.assume('Enum(v) raises on an unknown value, i.e. the packet is rejected (allowed by the statement) rather than normalised')
     rep.assume('bytearray slices and copy.copy(bytearray) are octet-exact copies')
 
-    ci, hb, cands = find_raw_attr(prog)
-    if not cands:
+    ci = prog.cls('pgpy.packet.fields', 'SubPackets')
+    hb = ci.methods.get('__hashbytearray__')
+    raw = raw_attribute(prog)
+    if raw is None:
         # the hashed area is re-serialised from parsed objects: the property then depends on every subpacket codec being lossless
         rep.violation('C05.2', 'SubPackets.__hashbytearray__', 're-serialises parsed subpackets',
                       'the octets hashed for the hashed area are produced by re-encoding parsed subpacket objects, not the received octets '
                       '(flag masks, text transcoding and length canonicalisation change them)', where=hb.where,
                       expected='return a copy of the octets SubPackets.parse received', found=ast.unparse(hb.node)[:200])
         return
-    raw = sorted(cands)[0]
-    R = 'self.%s' % raw
+    R = '%s.%s' % (hb.params[0], raw)
     rep.saw(fn=hb)
 
-    # ---- C05.1 capture in parse
+    check_capture(rep, prog, ci, raw)
+    check_replay(rep, prog, ci, hb, raw, R)
+    check_other_stores(rep, prog, ci, raw)
+    check_consumers(rep, prog)
+    check_header_octets(rep, prog)
+
+
+# ------------------------------------------------------------------------------------------------ C05.1
+def check_capture(rep, prog, ci, raw):
     pf = ci.methods.get('parse')
+    if pf is None:
+        raise AnalysisError('SubPackets.parse vanished')
     rep.saw(fn=pf)
-    outs = Interp(prog, Scenario(inline=noinline)).run(pf)
+    S = pf.params[0]
+    R = '%s.%s' % (S, raw)
+    outs = Interp(prog, Scenario(args=at(pf, p1=Sym('packet')), inline=noinline)).run(pf)
     rep.analysed['paths'] += len(outs)
-    HL = 'self.bytes_to_int(SLICE(packet;;2))'
-    good_vals = {'SLICE(packet;;(2 + %s))' % HL, 'SLICE(packet;;(%s + 2))' % HL}
+    good = [sl('packet', ('', '2 + %s' % HL)) for HL in b2i_forms(S, sl('packet', ('', 2)))]
+    pure = ('len', 'bytes', 'bytearray', 'memoryview', 'id', 'type', 'isinstance')
     for s in outs:
         stores = [(i, e) for i, e in enumerate(s.events) if e[0] == 'store' and e[1] == R]
         if len(stores) != 1:
@@ -72,114 +159,228 @@ def run(rep, prog, tier):
                           'parse must store the received hashed area exactly once', where=pf.where, found=[e[2] for _, e in stores])
             continue
         si, se = stores[0]
-        rep.check(se[2] in good_vals, 'C05.1', 'SubPackets.parse', '%s = %s' % (R, se[2]),
+        rep.check(se[2] in good, 'C05.1', 'SubPackets.parse', '%s = %s' % (R, se[2]),
                   'the capture must be the first 2 + hl octets of the buffer as it was received (length field included), '
                   'taken before anything was consumed', where='%s:%d' % (pf.module.relpath, se[3]),
                   expected='packet[:2 + hl] with hl = bytes_to_int(packet[:2])', found=se[2])
-        # taken before any consumption: the local that feeds the store is assigned before the first del / sub-parser call
-        first_consume = next((i for i, e in enumerate(s.events) if e[0] == 'del' or (e[0] == 'call' and e[1] == 'SignatureSP')), None)
+        # taken before any consumption: the value is first computed (bound to a local or stored) before the first `del` on the
+        # buffer and before the first call that receives the buffer itself (a sub-parser consumes from it)
+        first_consume = next((i for i, e in enumerate(s.events) if (e[0] == 'del' and re.match(r'^(SLICE\()?packet\b', e[1])) or
+                              (e[0] == 'call' and e[1] not in pure and 'packet' in e[2])), None)
         cap = next((i for i, e in enumerate(s.events) if e[0] in ('assign', 'store') and e[2] == se[2]), None)
         rep.check(cap is not None and first_consume is not None and cap < first_consume, 'C05.1', 'SubPackets.parse',
                   'capture at event %s, first consumption at %s' % (cap, first_consume),
                   'the octets must be copied out before the parser consumes or sub-parsers mutate the buffer', where=pf.where)
-        # stored after the last hashed __setitem__ (which invalidates)
-        hashed_sets = [i for i, e in enumerate(s.events) if e[0] == 'store' and e[1].startswith("self[('h_'")]
+        # stored after the last hashed __setitem__ (which invalidates): a subscript store on self whose key carries the 'h_' prefix
+        def hashed_file(e):
+            return e[0] == 'store' and e[1].startswith(S + '[') and 'h_' in e[1]
+        hashed_sets = [i for i, e in enumerate(s.events) if hashed_file(e)]
         rep.check(bool(hashed_sets) and si > max(hashed_sets), 'C05.1', 'SubPackets.parse', 'store index %d vs hashed files %s' % (si, hashed_sets),
                   'filing a hashed subpacket invalidates the capture, so it must be stored after the hashed subpackets were filed',
                   where=pf.where)
-        # and before the unhashed ones are filed is not required; but nothing after may reset it
-        later = [e for e in s.events[si + 1:] if e[0] == 'store' and (e[1] == R or e[1].startswith("self[('h_'"))]
+        later = [e for e in s.events[si + 1:] if (e[0] == 'store' and e[1] == R) or hashed_file(e)]
         rep.check(not later, 'C05.1', 'SubPackets.parse', 'later hashed stores %s' % [e[1] for e in later],
                   'nothing after the capture may touch the hashed area', where=pf.where)
 
-    # ---- C05.2 __hashbytearray__
-    outs = Interp(prog, Scenario(inline=noinline)).run(hb)
-    arms = {}
-    for s in outs:
-        key = tuple((f[0], f[1]) for f in s.facts)
-        arms[key] = render(s.ret)
-    present = [(k, v) for k, v in arms.items() if v == R]
-    rep.check(len(present) == 1 and present[0][0] in ((('(%s is not None)' % R, True),), (('(%s is None)' % R, False),)), 'C05.2',
-              'SubPackets.__hashbytearray__', 'arms %s' % {str(k): v[:60] for k, v in arms.items()},
-              'the received octets must be returned whenever they are present - presence must be the only condition', where=hb.where,
-              expected='if %s is not None: return bytearray(%s)' % (R, R), found={str(k): v[:80] for k, v in arms.items()})
-    for k, v in arms.items():
-        if v != R:
-            ok = any((t, val) in ((('(%s is not None)' % R), False), (('(%s is None)' % R), True)) for t, val in k)
-            rep.check(ok and len(k) == 1, 'C05.2', 'SubPackets.__hashbytearray__', 're-serialising arm under %s' % (k,),
-                      're-serialisation of parsed subpackets may only happen when no received octets exist (a signature being built)',
-                      where=hb.where, found=str(k))
-    # it must be a copy, not the stored object itself (callers append to it)
-    src = ast.unparse(hb.node)
-    rep.check(re.search(r'return\s+(bytearray|bytes)\(self\.%s\)|return\s+self\.%s\[:\]|copy\.copy\(self\.%s\)' % (raw, raw, raw), src) is not None,
-              'C05.2', 'SubPackets.__hashbytearray__', 'returns a copy', 'callers extend the returned buffer; the stored octets must not be aliased',
-              where=hb.where)
 
-    # ---- C05.3 other stores
-    n_other = 0
-    for fn in prog.all_functions():
-        for node in ast.walk(fn.node):
-            if isinstance(node, ast.Assign):
-                for t in node.targets:
-                    if isinstance(t, ast.Attribute) and t.attr == raw:
-                        if fn.qualname == 'SubPackets.parse':
-                            continue
-                        n_other += 1
-                        v = node.value
-                        vt = ast.unparse(v)
-                        w = '%s:%d' % (fn.module.relpath, node.lineno)
-                        if fn.qualname == 'SubPackets.__copy__':
-                            ok = vt in ('copy.copy(self.%s)' % raw, 'bytearray(self.%s)' % raw, 'self.%s[:]' % raw) or \
-                                re.match(r'^(None if self\.%s is None else )?(bytearray\(self\.%s\)|self\.%s\[:\])$' % (raw, raw, raw), vt) is not None
-                            rep.check(ok, 'C05.3', fn.qualname, ast.unparse(node), 'a copy of a signature must carry the received octets (as a copy)',
-                                      where=w, expected='sp.%s = copy.copy(self.%s)' % (raw, raw), found=ast.unparse(node))
-                        else:
-                            rep.check(isinstance(v, ast.Constant) and v.value is None, 'C05.3', fn.qualname, ast.unparse(node),
-                                      'outside parse and __copy__ the capture may only be reset to None', where=w, found=ast.unparse(node))
+# ------------------------------------------------------------------------------------------------ C05.2
+def check_replay(rep, prog, ci, hb, raw, R):
+    # present: every path returns a copy of the received octets (no other condition can divert a path to re-serialisation)
+    present = Interp(prog, Scenario(bind={R: Sym(R, nonnull=True)}, inline=noinline)).run(hb)
+    rep.analysed['paths'] += len(present)
+    if not present:
+        raise AnalysisError('SubPackets.__hashbytearray__: no path')
+    for s in present:
+        t, copied = uncopy(s.ret)
+        cond = [(f[0], f[1]) for f in s.facts]
+        rep.check(s.raised is None and t == R, 'C05.2', 'SubPackets.__hashbytearray__', 'received octets present, decisions %s -> %s' % (cond, (t or '')[:80]),
+                  'the received octets must be returned whenever they are present - presence must be the only condition', where=hb.where,
+                  expected='if %s is not None: return bytearray(%s)' % (R, R), found='under %s returns %s' % (cond, (t or '')[:120]),
+                  scenario='received octets present')
+        if t == R:
+            # it must be a copy, not the stored object itself (callers append to it)
+            rep.check(copied, 'C05.2', 'SubPackets.__hashbytearray__', 'returns a copy',
+                      'callers extend the returned buffer; the stored octets must not be aliased', where=hb.where,
+                      expected='bytearray(%s)' % R, found=render(s.ret), scenario='received octets present')
+    # absent: nothing of the capture is returned; the re-serialised layout itself is C02.5
+    absent = Interp(prog, Scenario(bind={R: Const(None)}, inline=noinline)).run(hb)
+    rets = [s for s in absent if s.raised is None]
+    if not rets:
+        raise AnalysisError('SubPackets.__hashbytearray__: no returning path without received octets')
+    for s in rets:
+        r = render(s.ret)
+        rep.check(isinstance(s.ret, Bytes) and r not in ('None', 'C()'), 'C05.2', 'SubPackets.__hashbytearray__', 'no received octets -> %s' % r[:80],
+                  're-serialisation of parsed subpackets happens exactly when no received octets exist (a signature being built)',
+                  where=hb.where, found=r, scenario='no received octets')
+
+
+# ------------------------------------------------------------------------------------------------ C05.3
+HASHED_COLL = '_hashed_sp'       # the collection of parsed hashed subpackets (the same name C02.5 reads the built area from)
+
+
+def _touches_hashed(s, obj):
+    """Does this path change the hashed subpacket collection of `obj` (item store, rebinding, mutating call, delete)?"""
+    coll = '%s.%s' % (obj, HASHED_COLL)
+    for e in s.events:
+        if e[0] == 'store' and (e[1] == coll or e[1].startswith(coll + '[')):
+            return True
+        if e[0] == 'del' and e[1].startswith(coll):
+            return True
+        if e[0] == 'call' and e[1].startswith(coll + '.') and e[1].split('.')[-1] in (
+                'pop', 'popitem', 'clear', 'update', 'setdefault', 'move_to_end', '__setitem__', '__delitem__'):
+            return True
+    return False
+
+
+def _only_inlined_helper(prog, fn):
+    """A new private helper whose every call site was inlined by the canonicaliser: its body is judged where it was inlined."""
+    inl = set(c for c, host in (getattr(prog, 'canon_inlined', None) or []))
+    if fn.name not in inl:
+        return False
+    for g in prog.all_functions():
+        for n in ast.walk(g.node):
+            if isinstance(n, ast.Call) and ((isinstance(n.func, ast.Attribute) and n.func.attr == fn.name) or
+                                            (isinstance(n.func, ast.Name) and n.func.id == fn.name)):
+                return False
+            if isinstance(n, ast.Attribute) and n.attr == fn.name and not isinstance(getattr(n, 'ctx', None), ast.Store) and g is not fn:
+                return False
+    return True
+
+
+def check_other_stores(rep, prog, ci, raw):
+    sites = _attr_store_sites(prog, raw)
     cp = ci.methods.get('__copy__')
-    has_copy = cp is not None and any(isinstance(t, ast.Attribute) and t.attr == raw for n in ast.walk(cp.node) if isinstance(n, ast.Assign)
-                                      for t in n.targets)
-    rep.check(has_copy, 'C05.3', 'SubPackets.__copy__', 'carries %s' % raw,
-              'a copied signature (e.g. in a derived public key) must verify over the same received octets', where=cp.where if cp else ci.where,
-              expected='sp.%s = copy.copy(self.%s)' % (raw, raw))
-    # invalidation on a hashed key only
+    for fn in sites:
+        if fn.cls is ci and fn.name == 'parse':
+            continue        # C05.1
+        if fn is cp or _only_inlined_helper(prog, fn):
+            continue
+        n = 0
+        for s in Interp(prog, Scenario(inline=noinline, join_unknown=False)).run(fn):
+            sts = _stores_to(s, raw)
+            for p, v, l, _ in sts:
+                n += 1
+                rep.check(v == 'None', 'C05.3', fn.qualname, '%s = %s' % (p, v),
+                          'outside parse and __copy__ the capture may only be reset to None', where='%s:%d' % (fn.module.relpath, l), found='%s = %s' % (p, v))
+            # a reset loses the received octets for good: it is legitimate only where the hashed subpackets themselves change on
+            # the same path (and in the initial state); anywhere else a received signature would silently fall back to re-encoding
+            if sts and fn.name != '__init__' and s.raised is None:
+                objs = sorted(set(p[:-len(raw) - 1] for p, v, l, _ in sts))
+                bad = [o for o in objs if not _touches_hashed(s, o)]
+                rep.check(not bad, 'C05.3', fn.qualname, 'resets the capture of %s, hashed subpackets unchanged' % bad,
+                          'the received octets are dropped on a path that does not change the hashed subpackets: a received '
+                          'signature passing through here is afterwards hashed from a re-encoding', where=fn.where,
+                          expected='reset only together with a change of %s' % HASHED_COLL, found='decisions %s' % [(f[0], f[1]) for f in s.facts])
+        if n == 0:
+            raise AnalysisError('%s writes %s in a way the interpreter does not see' % (fn.qualname, raw))
+    # __copy__ carries a copy of the octets
+    if cp is None:
+        rep.violation('C05.3', 'SubPackets.__copy__', 'no __copy__', 'a copied signature must verify over the same received octets', where=ci.where)
+    else:
+        R = '%s.%s' % (cp.params[0], raw)
+        for present in (True, False):
+            bind = {R: Sym(R, nonnull=True) if present else Const(None)}
+            for s in Interp(prog, Scenario(bind=bind, inline=noinline)).run(cp):
+                if s.raised is not None:
+                    continue
+                tgt = '%s.%s' % (render(s.ret), raw)
+                vals = [(v, val) for p, v, l, val in _stores_to(s, raw) if p == tgt]
+                if present:
+                    ok = len(vals) >= 1 and uncopy(vals[-1][1] if vals[-1][1] is not None else Sym(vals[-1][0])) == (R, True)
+                    # filing a hashed subpacket through the mapping interface of the copy resets its capture: none after the store
+                    last = max([i for i, e in enumerate(s.events) if e[0] == 'store' and e[1] == tgt] + [-1])
+                    refiled = [e[1] for e in s.events[last + 1:] if e[0] == 'store' and e[1].startswith(render(s.ret) + '[') and
+                               ('h_' in e[1] or not re.search(r"\['\w+'\]$", e[1]))]
+                    refiled += [e[1] for e in s.events[last + 1:] if e[0] == 'call' and e[1] in (render(s.ret) + '.addnew', render(s.ret) + '.__setitem__')]
+                    ok = ok and not refiled
+                    rep.check(ok, 'C05.3', 'SubPackets.__copy__', 'carries %s: %s' % (raw, [v for v, _ in vals]),
+                              'a copied signature (e.g. in a derived public key) must verify over the same received octets: '
+                              'a copy of a signature must carry the received octets (as a copy)', where=cp.where,
+                              expected='%s = copy.copy(%s)' % (tgt, R), found=[v for v, _ in vals], scenario='received octets present')
+                else:
+                    ok = all(v in ('None', 'copy.copy(None)', 'copy.deepcopy(None)') for v, _ in vals)
+                    rep.check(ok, 'C05.3', 'SubPackets.__copy__', 'without received octets: %s' % [v for v, _ in vals],
+                              'a copy of a built signature has no received octets either', where=cp.where, found=[v for v, _ in vals],
+                              scenario='no received octets')
+    # invalidation on a hashed key only: concrete keys, so the test on the key may be spelled in any way
     si = ci.methods.get('__setitem__')
-    for hashed in (True, False):
-        sc = Scenario(inline=noinline, args={'key': Sym('key', types={'str'}, nonnull=True)}, axioms={"key.startswith('h_')": hashed})
-        for s in Interp(prog, sc).run(si):
-            resets = [v for p, v, l, _ in s.stores if p == R]
-            rep.check((resets == ['None']) == hashed and (hashed or not resets), 'C05.3', 'SubPackets.__setitem__',
-                      'hashed key=%s -> resets %s' % (hashed, resets),
+    if si is None:
+        raise AnalysisError('SubPackets.__setitem__ vanished')
+    RS = '%s.%s' % (si.params[0], raw)
+    for hashed, key in ((True, 'h_Issuer'), (False, 'Issuer'), (True, 'h_NotationData'), (False, 'NotationData')):
+        outs = Interp(prog, Scenario(inline=noinline, args=at(si, p1=Const(key)))).run(si)
+        outs = [s for s in outs if s.raised is None]
+        if not outs:
+            raise AnalysisError('SubPackets.__setitem__: no returning path for key %r' % key)
+        for s in outs:
+            resets = [v for p, v, l, _ in s.stores if p == RS]
+            rep.check((resets == ['None'] or (hashed and resets and set(resets) == {'None'})) == hashed and (hashed or not resets), 'C05.3',
+                      'SubPackets.__setitem__', 'key %r -> resets %s' % (key, resets),
                       'adding a hashed subpacket must invalidate the received octets; adding an unhashed one must not', where=si.where,
                       scenario='hashed=%s' % hashed)
     ini = ci.methods.get('__init__')
-    init_vals = [ast.unparse(n.value) for n in ast.walk(ini.node) if isinstance(n, ast.Assign) and
-                 any(isinstance(t, ast.Attribute) and t.attr == raw for t in n.targets)]
-    rep.check(init_vals == ['None'], 'C05.3', 'SubPackets.__init__', '%s initial %s' % (raw, init_vals),
-              'a new (unparsed) subpacket set has no received octets', where=ini.where)
-    # copy chain
+    if ini is None:
+        raise AnalysisError('SubPackets.__init__ vanished')
+    for s in Interp(prog, Scenario(inline=noinline)).run(ini):
+        if s.raised is not None:
+            continue
+        init_vals = [v for p, v, l, _ in s.stores if p == '%s.%s' % (ini.params[0], raw)]
+        rep.check(bool(init_vals) and init_vals[-1] == 'None', 'C05.3', 'SubPackets.__init__', '%s initial %s' % (raw, init_vals),
+                  'a new (unparsed) subpacket set has no received octets', where=ini.where)
+    # copy chain: the packet copies its subpacket set, the PGPSignature copies its packet
     sv = prog.method('pgpy.packet.packets', 'SignatureV4', '__copy__')
-    rep.check('spkt.subpackets = copy.copy(self.subpackets)' in ast.unparse(sv.node), 'C05.3', 'SignatureV4.__copy__', 'subpackets copied',
-              'copying a signature packet must copy its subpacket set (and with it the received octets)', where=sv.where)
+    X = sv.params[0]
+    copies = lambda a: ('copy.copy(%s)' % a, 'copy.deepcopy(%s)' % a, '%s.__copy__()' % a)  # noqa: E731
+    for s in Interp(prog, Scenario(inline=noinline)).run(sv):
+        if s.raised is not None:
+            continue
+        got = [v for p, v, l, _ in s.stores if p == '%s.subpackets' % render(s.ret)]
+        rep.check(bool(got) and got[-1] in copies('%s.subpackets' % X), 'C05.3', 'SignatureV4.__copy__', 'subpackets copied: %s' % got,
+                  'copying a signature packet must copy its subpacket set (and with it the received octets)', where=sv.where,
+                  expected=copies('%s.subpackets' % X)[0], found=got)
     ps = prog.method('pgpy.pgp', 'PGPSignature', '__copy__')
-    rep.check('copy.copy(self._signature)' in ast.unparse(ps.node), 'C05.3', 'PGPSignature.__copy__', 'packet copied',
-              'copying a PGPSignature must copy its packet', where=ps.where)
+    X = ps.params[0]
+    for s in Interp(prog, Scenario(inline=noinline)).run(ps):
+        if s.raised is not None:
+            continue
+        ret = render(s.ret)
+        flows = [ret] + [e[2] for e in s.events if e[0] == 'ior'] + [v for p, v, l, _ in s.stores if p.endswith('._signature')]
+        rep.check(any(c in t for t in flows for c in copies('%s._signature' % X)), 'C05.3', 'PGPSignature.__copy__', 'packet copied',
+                  'copying a PGPSignature must copy its packet', where=ps.where, expected=copies('%s._signature' % X)[0], found=flows)
 
-    # ---- C05.4 consumers
-    hd = prog.method('pgpy.pgp', 'PGPSignature', 'hashdata')
-    uses = [n for n in ast.walk(hd.node) if isinstance(n, ast.Attribute) and n.attr in ('_hashed_sp', raw, '__bytearray__') and
-            'subpackets' in ast.unparse(n)]
-    calls = [n for n in ast.walk(hd.node) if isinstance(n, ast.Call) and isinstance(n.func, ast.Attribute) and n.func.attr == '__hashbytearray__']
-    rep.check(len(calls) == 1 and not uses, 'C05.4', 'PGPSignature.hashdata', '__hashbytearray__ calls %d, direct uses %d' % (len(calls), len(uses)),
-              'the trailer must take the hashed area from __hashbytearray__ (the one place that knows the received octets)', where=hd.where)
+
+# ------------------------------------------------------------------------------------------------ C05.4
+def check_consumers(rep, prog):
+    # hashdata: the HASHED term of the trailer is matched against the template (role HASHED = subpackets.__hashbytearray__()) for one
+    # scenario of each subject family; the trailer code is shared by all types and all of them are matched under C01.1 / C02.1
+    sigdata.check_hashdata(rep, prog, 'C05.4', only_types={'BinaryDocument', 'Positive_Cert', 'Subkey_Binding'})
     cb = prog.method('pgpy.packet.packets', 'SignatureV4', 'canonical_bytes')
-    calls = [n for n in ast.walk(cb.node) if isinstance(n, ast.Call) and isinstance(n.func, ast.Attribute) and n.func.attr == '__hashbytearray__']
-    rep.check(len(calls) == 1, 'C05.4', 'SignatureV4.canonical_bytes', '__hashbytearray__ calls %d' % len(calls),
-              'an attested signature is hashed with its hashed area as received', where=cb.where)
-    # the hashed term of every scenario was already matched against the template under C01/C02; here one scenario pins HASHED
-    sigdata.check_hashdata(rep, prog, 'C05.4', only_types={'BinaryDocument'})
+    X = cb.params[0]
+    for s in Interp(prog, Scenario(inline=noinline)).run(cb):
+        if s.raised is not None:
+            continue
+        its = merge_consts(s.ret.items) if isinstance(s.ret, Bytes) else []
+        area = [render_items([i]) for i in its if 'subpackets' in render_items([i]) and i[0] != 'INT']
+        want = '%s.subpackets.__hashbytearray__()' % X
+        if area != [want] and unmodelled(render(s.ret)) is not None:
+            raise AnalysisError('SignatureV4.canonical_bytes: %r is outside what the byte-term interpreter models' % unmodelled(render(s.ret)))
+        rep.check(area == [want], 'C05.4', 'SignatureV4.canonical_bytes', 'hashed area term %s' % area,
+                  'an attested signature is hashed with its hashed area as received', where=cb.where, expected=want, found=area)
 
-    # ---- C05.5 header octets
+
+# ------------------------------------------------------------------------------------------------ C05.5
+def _octet_offset(t):
+    """Offset (from where the packet body starts) of a single received octet: packet[k] after the preceding `del`s."""
+    m = re.match(r'^packet\[(\d+)\]$', t)
+    if m:
+        return int(m.group(1))
+    m = re.match(r'^SLICE\(packet;(\d+);\)\[(\d+)\]$', t)
+    if m:
+        return int(m.group(1)) + int(m.group(2))
+    return None
+
+
+def check_header_octets(rep, prog):
     sv4 = prog.cls('pgpy.packet.packets', 'SignatureV4')
     for prop, attr, enum in (('sigtype', '_sigtype', 'SignatureType'), ('pubalg', '_pubalg', 'PubKeyAlgorithm'), ('halg', '_halg', 'HashAlgorithm')):
         p = sv4.props.get(prop)
@@ -188,25 +389,40 @@ def run(rep, prog, tier):
         st = p.setters['int']
         rep.saw(fn=st)
         vals = set()
-        for s in Interp(prog, Scenario(inline=noinline)).run(st):
+        X = st.params[0]
+        for s in Interp(prog, Scenario(args=at(st, p1=Sym('val')), inline=noinline)).run(st):
             for pth, v, l, _ in s.stores:
-                if pth == 'self.%s' % attr:
+                if pth == '%s.%s' % (X, attr):
                     vals.add(v)
         allowed = {'%s(val)' % enum, 'val'}
         rep.check(bool(vals) and vals <= allowed and '%s(val)' % enum in vals, 'C05.5', 'SignatureV4.%s_int' % prop, '%s <- %s' % (attr, sorted(vals)),
                   'the received %s octet must be stored unchanged (enum lookup or raw value), never mapped to another value' % prop,
                   where=st.where, expected='self.%s = %s(val)' % (attr, enum), found=sorted(vals))
         for s in Interp(prog, Scenario(inline=noinline)).run(p.getter):
-            rep.check(render(s.ret) == 'self.%s' % attr, 'C05.5', 'SignatureV4.%s' % prop, 'getter returns %s' % render(s.ret),
+            rep.check(render(s.ret) == '%s.%s' % (p.getter.params[0], attr), 'C05.5', 'SignatureV4.%s' % prop, 'getter returns %s' % render(s.ret),
                       'the value hashed must be the stored one', where=p.getter.where)
     # PGPSignature properties read those
-    for name, exp in (('type', 'self._signature.sigtype'), ('key_algorithm', 'self._signature.pubalg'), ('hash_algorithm', 'self._signature.halg')):
+    for name, field in (('type', 'sigtype'), ('key_algorithm', 'pubalg'), ('hash_algorithm', 'halg')):
         g = prog.method('pgpy.pgp', 'PGPSignature', name)
+        exp = '%s._signature.%s' % (g.params[0], field)
         for s in Interp(prog, Scenario(inline=noinline)).run(g):
             rep.check(render(s.ret) == exp, 'C05.5', 'PGPSignature.%s' % name, 'returns %s' % render(s.ret),
                       'the trailer octet must come from the parsed packet field', where=g.where, expected=exp, found=render(s.ret))
-    # SignatureV4.parse feeds the three octets in order
+    # SignatureV4.parse feeds the three octets in RFC order: each property receives the octet at its offset in the received body
     sp = sv4.methods['parse']
-    order = [ast.unparse(n.targets[0]) for n in sp.node.body if isinstance(n, ast.Assign)]
-    rep.check(order[:3] == ['self.sigtype', 'self.pubalg', 'self.halg'], 'C05.5', 'SignatureV4.parse', 'field order %s' % order[:3],
-              'type, public-key algorithm and hash algorithm are read in RFC 4880 5.2.3 order', where=sp.where)
+    X = sp.params[0]
+    n = 0
+    for s in Interp(prog, Scenario(args=at(sp, p1=Sym('packet')), inline=noinline, forward_stores=False)).run(sp):
+        if s.raised is not None:
+            continue
+        n += 1
+        got = {}
+        for pth, v, l, _ in s.stores:
+            for k, name in enumerate(('sigtype', 'pubalg', 'halg')):
+                if pth == '%s.%s' % (X, name):
+                    got.setdefault(name, []).append(_octet_offset(v))
+        rep.check(got == {'sigtype': [0], 'pubalg': [1], 'halg': [2]}, 'C05.5', 'SignatureV4.parse', 'octet offsets %s' % got,
+                  'type, public-key algorithm and hash algorithm are read in RFC 4880 5.2.3 order', where=sp.where,
+                  expected={'sigtype': [0], 'pubalg': [1], 'halg': [2]}, found=got)
+    if not n:
+        raise AnalysisError('SignatureV4.parse: no returning path')
